@@ -61,7 +61,7 @@ def digest(x: Any) -> str:
     return hashlib.sha1(text.encode(), usedforsecurity=False).hexdigest()[:16]
 
 
-EXEC_DEADLINE_S = 45
+EXEC_DEADLINE_S = 20
 
 
 class ExecutionTimeout(BaseException):
@@ -261,6 +261,7 @@ def explore(  # noqa: PLR0913, PLR0912, C901
             stats.executions += 1
             stats.violation_count += 1
             stats.capped_programs += 1
+            stats.timeouts = getattr(stats, "timeouts", 0) + 1
             w = {
                 "program": program,
                 "program_index": program_index,
